@@ -612,7 +612,8 @@ class PFITSFile:
             otherwise in ``uint8`` with shape ``(nsamps, npol, nchan)``.
         """
         sdata = self._fits["SUBINT"].data[isub]["DATA"]
-        sdata = sdata.squeeze()
+        # (time bytes, npol, nchans): keep the polarisation axis of single-pol files
+        sdata = sdata.reshape(-1, self.sub_hdr.npol, self.sub_hdr.nchans)
         if self.bitsinfo.unpack:
             data = unpack(sdata.ravel(), self.bitsinfo.nbits)
             data = data.reshape(
